@@ -106,7 +106,8 @@ theorem crash_during_autosave_then_resume (M : Machine σ ρ) (s0 : σ) (n fuel 
       [iter M.progress m s0])) (iter M.progress m' s0)
     rw [this] at hs
     simp only [List.mem_cons, List.mem_nil_iff, or_false] at hs
-    rcases hs with rfl | rfl | rfl | rfl | rfl
+    rcases hs with rfl | rfl | rfl | rfl | rfl | rfl
+    · exact Or.inl hb
     · exact Or.inl hb
     · exact Or.inl hb
     · exact Or.inl hb
